@@ -619,7 +619,7 @@ def checkCtx (c : Ctx) (r : Report) (d : DSt) (kind : String) (p : Nat) (outer :
     if !d.down then
       r := r.addCover (match m.result with
         | none => if pEff ≤ 1 then "ctx-dead-before-the-call-sent-anything" else "ctx-dead-between-noscript-and-eval"
-        | some _ => if kind = "far" then "ctx-deadline-later-than-the-call" else "ctx-dead-after-the-script-run(no effect on the call)")
+        | some _ => if kind = "far" then "ctx-deadline-later-than-the-call" else "ctx-dead-after-the-script-run(call-unaffected)")
     let (r', d') := checkOps c r d [(outer, ob)] dump (fun _ => head)
     return (r', d')
   | _ => return bad
@@ -774,7 +774,14 @@ def runSection (r : Report) (s : Section) : Report := Id.run do
           match implB with
           | none =>
             r := r.addCover s!"result-{res}"
-            r := r.mismatch s.idx l.idx "<true|false|ok>" impl
+            if res = "err" ∧ isCall then
+              -- an error on a plain call while Redis answers and no context is involved: the lock can neither be
+              -- taken nor freed through this entry point
+              r := r.violation s.idx l.idx s!"{callName op} by instance {whoOf op} failed with an error although Redis is reachable and no context was cancelled: through this entry point the lock can {if callName op = "Release" then "never be freed by its holder" else "never be acquired"} op=[{joinSp l.op}] impl=[{impl}]"
+              let (r', d') := checkOps c r d [(op, none)] dump (fun _ => resTok op (step cfg d.st op).2)
+              r := r'; d := d'
+            else
+              r := r.mismatch s.idx l.idx "<true|false|ok>" impl
           | some b =>
             let (r', d') := checkOps c r d [(op, some b)] dump (fun m => resTok op (m.headD true))
             r := r'; d := d'
